@@ -264,6 +264,12 @@ def _mk_pipeline(family):
             names += ['{%s}m' % TNS + 'x', '{}m', '}m', '{urn:other}other']
         if family == 'soap11':
             names += ['__other_quoted_in_a_header__', '__unregistered_body_other_in_header__']
+        if family in ('soap11', 'xml'):
+            # the ways XML can spell a qualified name: the other namespace as the default namespace and (positive case)
+            # the target namespace as the default namespace.  An element in no namespace at all is not in the universe:
+            # the property speaks of names "qualified with a different namespace", and Spyne reads an unqualified name
+            # as a name of the target namespace in every protocol (generate_method_contexts)
+            names += ['{urn:other}m/as_default_namespace', '__tns_as_default_namespace__']
         name = c.choose(names, 'requested_name')
         h = Harness(c, family, user_outcomes=['return'])
         method, path, qs, body, ctype = requests_for(family)['valid'][:5]
@@ -278,21 +284,27 @@ def _mk_pipeline(family):
         elif family == 'msgpack':
             import msgpack
             body = msgpack.packb({name.encode('utf8'): {b'i': 5}})
-        elif family == 'soap11' and name.startswith('__'):
+        elif family == 'soap11' and name.startswith('__') and name != '__tns_as_default_namespace__':
             # a header block that quotes another message (with a soap Body of its own): only the envelope's own Body
             # names the method
             real = '<tns:m><tns:i>5</tns:i></tns:m>' if name == '__other_quoted_in_a_header__' else '<tns:Nope><tns:i>5</tns:i></tns:Nope>'
             body = ('<e:Envelope xmlns:e="%s" xmlns:tns="%s"><e:Header><tns:Relayed><e:Body><tns:other><tns:i>7</tns:i></tns:other>'
                     '</e:Body></tns:Relayed></e:Header><e:Body>%s</e:Body></e:Envelope>' % (SOAP11_NS, TNS, real)).encode()
         elif family in ('soap11', 'xml'):
-            if name.startswith('{'):
+            if name == '{urn:other}m/as_default_namespace':
+                tag = '<m xmlns="urn:other"><i>5</i></m>'
+            elif name == '{}m/no_namespace':
+                tag = '<m xmlns=""><i>5</i></m>'
+            elif name == '__tns_as_default_namespace__':
+                tag = '<m xmlns="%s"><i>5</i></m>' % TNS
+            elif name.startswith('{'):
                 tag = '<o:m xmlns:o="urn:other"><o:i>5</o:i></o:m>'
             elif name == '':
                 tag = '<tns:_/>'
             else:
                 tag = '<tns:%s><tns:i>5</tns:i></tns:%s>' % (name, name)
             body = soap_env(SOAP11_NS, tag) if family == 'soap11' else (
-                tag.replace('<tns:', '<tns:', 1).replace('>', ' xmlns:tns="%s">' % TNS, 1).encode())
+                tag.replace('>', ' xmlns:tns="%s">' % TNS, 1).encode())
         env = h.env('valid')
         import io
         env.update(PATH_INFO=path, CONTENT_LENGTH=str(len(body)))
@@ -305,7 +317,7 @@ def _mk_pipeline(family):
         ran_m = sum(1 for t in c.trace if t[0] == 'user_fn')
         ran_other = sum(1 for t in c.trace if t[0] == 'user_fn_other')
         status = [t for t in c.trace if t[0] == 'start_response'][0][1]
-        if name in ('m', '__other_quoted_in_a_header__'):
+        if name in ('m', '__other_quoted_in_a_header__', '__tns_as_default_namespace__'):
             c.check('named_method_runs_once', ran_m == 1 and ran_other == 0, detail=(ran_m, ran_other))
         elif name == 'other':
             c.check('named_method_runs_once', ran_m == 0 and ran_other == 1, detail=(ran_m, ran_other))
@@ -466,8 +478,9 @@ def naming_dictdoc(c):
 
 @obligation('C11.table.same_named_services', targets=['spyne.application:Application.check_unique_method_keys',
                                                        'spyne.interface._base:Interface.process_method'],
-            bounded="two distinct service classes produced by one factory (same module and class name) x wrapped / bare "
-                    "methods sharing their message types x both listing orders",
+            bounded="two distinct service classes whose (module, class name) are equal, different, or differ only in a "
+                    "fragment (7 module pairs x 2 class-name pairs) x wrapped / bare methods sharing their message types x "
+                    "both listing orders",
             desc="two different services that expose a method of the same name are rejected when the application is "
                  "constructed even when the classes themselves carry the same module and class name")
 def same_named_services(c):
@@ -479,22 +492,77 @@ def same_named_services(c):
     style = c.choose(['bare', 'wrapped'], 'body_style')
     ran = []
 
+    # the two classes may carry any module and class names: the same ones, different ones, or names that differ only in a
+    # fragment (private packages '_v1' / '_v2', a trailing underscore, '__main__' against a helper module)
+    mod_a, mod_b = c.choose([('pkg.svc', 'pkg.svc'), ('pkg.svc', 'pkg.other'), ('pkg._v1.svc', 'pkg._v2.svc'),
+                             ('__main__', '_helpers'), ('pkg.svc', 'pkg.svc_'), ('pkg.svc', 'pkg._impl.svc'),
+                             ('a.b_c', 'a_b.c')], 'modules')
+    cn_a, cn_b = c.choose([('Maker', 'Maker'), ('Maker', 'Other')], 'class_names')
+
     def factory(tag):
-        class Maker(ServiceBase):
-            if style == 'bare':
-                @rpc(Msg, _returns=Msg, _body_style='bare')
-                def act(ctx, m):
-                    ran.append(tag)
-                    return m
-            else:
-                @rpc(Integer, _returns=Integer)
-                def act(ctx, i):
-                    ran.append(tag)
-                    return i
-        return Maker
+        if style == 'bare':
+            @rpc(Msg, _returns=Msg, _body_style='bare')
+            def act(ctx, m):
+                ran.append(tag)
+                return m
+        else:
+            @rpc(Integer, _returns=Integer)
+            def act(ctx, i):
+                ran.append(tag)
+                return i
+        return type(ServiceBase)(cn_a if tag == 'a' else cn_b, (ServiceBase,),
+                                 {'__module__': mod_a if tag == 'a' else mod_b, 'act': act})
     A, B = factory('a'), factory('b')
     how = c.choose(['a_then_b', 'b_then_a'], 'services')
     svcs = {'a_then_b': [A, B], 'b_then_a': [B, A]}[how]
     out = c.run(Application, svcs, TNS, in_protocol=ProtocolBase(), out_protocol=ProtocolBase())
+    c.check('conflict_rejected_at_construction', out.raised and not isinstance(out.exc, (TypeError, AttributeError)),
+            detail=repr(out))
+
+
+@obligation('C11.table.same_name_in_one_service', targets=['spyne.service:ServiceMeta.__init__',
+                                                            'spyne.application:Application.check_unique_method_keys',
+                                                            'spyne.interface._base:Interface.process_method'],
+            bounded="two functions of one service class made to answer to one name through _in_message_name or "
+                    "_operation_name (given to the second, to the first, or to both) x wrapped / bare",
+            desc="two methods of the same service that would answer to the same name are rejected when the service class or "
+                 "the application is constructed; neither silently replaces the other")
+def same_name_in_one_service(c):
+    from spyne.model.complex import ComplexModel
+
+    class Msg2(ComplexModel):
+        __namespace__ = TNS
+        v = Integer
+    how = c.choose(['_in_message_name', '_operation_name'], 'keyword')
+    who = c.choose(['second_takes_the_name_of_the_first', 'first_takes_the_name_of_the_second', 'both_take_a_third_name'], 'who')
+    style = c.choose(['wrapped', 'bare'], 'body_style')
+    ran = []
+    kw1, kw2 = {}, {}
+    if who == 'second_takes_the_name_of_the_first':
+        kw2[how] = 'alpha'
+    elif who == 'first_takes_the_name_of_the_second':
+        kw1[how] = 'beta'
+    else:
+        kw1[how] = kw2[how] = 'gamma'
+    if style == 'bare':
+        kw1['_body_style'] = kw2['_body_style'] = 'bare'
+    T = Msg2 if style == 'bare' else Integer
+
+    if style == 'bare' and how == '_in_message_name':
+        c.end("the request message of a bare method is its argument type: _in_message_name does not name it")
+
+    def alpha(ctx, a):
+        ran.append('alpha')
+        return a
+
+    def beta(ctx, a):
+        ran.append('beta')
+        return a
+    o1 = c.run(type(ServiceBase), 'OneSvc', (ServiceBase,), {'alpha': rpc(T, _returns=T, **kw1)(alpha),
+                                                            'beta': rpc(T, _returns=T, **kw2)(beta)})
+    if o1.raised:
+        out = o1
+    else:
+        out = c.run(Application, [o1.value], TNS, in_protocol=ProtocolBase(), out_protocol=ProtocolBase())
     c.check('conflict_rejected_at_construction', out.raised and not isinstance(out.exc, (TypeError, AttributeError)),
             detail=repr(out))
